@@ -32,6 +32,7 @@ import (
 
 	"github.com/btcsuite/btcd/btcec/v2"
 	"github.com/btcsuite/btcd/wire/v2"
+	"github.com/lightningnetwork/lnd/tor"
 	"pgregory.net/rapid"
 )
 
@@ -226,6 +227,9 @@ func vFieldMap(m Message) map[string][]string {
 			out[name+".Hash"] = fB(x.Hash[:])
 			out[name+".Index"] = fN(uint64(x.Index))
 			continue
+		case []net.Addr:
+			out[name] = fB(vAddrBytes(x))
+			continue
 		case color.RGBA:
 			out[name+".R"] = fN(uint64(x.R))
 			out[name+".G"] = fN(uint64(x.G))
@@ -250,6 +254,136 @@ func vFieldMap(m Message) map[string][]string {
 		}
 	}
 	return out
+}
+
+// vAddrBytes: the BOLT-7 descriptors of a decoded address list, written here by hand
+// (not through WriteNetAddrs): 1 tcp4, 2 tcp6, 3/4 onion v2/v3, 5 dns, opaque payloads.
+func vAddrBytes(as []net.Addr) []byte {
+	var out []byte
+	port := func(p int) { out = append(out, byte(p>>8), byte(p)) }
+	for _, a := range as {
+		switch x := a.(type) {
+		case *net.TCPAddr:
+			if len(x.IP) == 4 || (len(x.IP) == 16 && bytes.Equal(x.IP[:12],
+				[]byte{0, 0, 0, 0, 0, 0, 0, 0, 0, 0, 0xff, 0xff})) {
+				out = append(out, 1)
+				out = append(out, x.IP[len(x.IP)-4:]...)
+			} else {
+				out = append(out, 2)
+				out = append(out, x.IP...)
+			}
+			port(x.Port)
+		case *tor.OnionAddr:
+			host, err := tor.Base32Encoding.DecodeString(strings.TrimSuffix(x.OnionService, ".onion"))
+			if err != nil {
+				panic(err)
+			}
+			if len(host) == 10 {
+				out = append(out, 3)
+			} else {
+				out = append(out, 4)
+			}
+			out = append(out, host...)
+			port(x.Port)
+		case *DNSAddress:
+			out = append(out, 5, byte(len(x.Hostname)))
+			out = append(out, x.Hostname...)
+			port(int(x.Port))
+		case *OpaqueAddrs:
+			out = append(out, x.Payload...)
+		default:
+			panic(fmt.Sprintf("address type %T", a))
+		}
+	}
+	return out
+}
+
+// vAddrRows: node_announcement encodings whose address section is replaced by a crafted
+// descriptor list: padding (0), tcp4, tcp6 (random / IPv4-mapped / nearly mapped), onion
+// v2/v3, dns with length 0/1/63/255, unknown types (opaque rest), a truncated last
+// descriptor, a dns length running past the section.
+func vAddrRows(out *vWriter, mt MessageType, r *vrng, bases [][]byte) {
+	n := vCases(40, 1500)
+	for i := 0; i < n; i++ {
+		rr := r.fork(uint64(i))
+		b := bases[rr.intn(len(bases))]
+		off := 2 + 64
+		if len(b) < off+2 {
+			continue
+		}
+		off += 2 + int(binary.BigEndian.Uint16(b[off:])) + 4 + 33 + 3 + 32
+		if len(b) < off+2 {
+			continue
+		}
+		end := off + 2 + int(binary.BigEndian.Uint16(b[off:]))
+		if len(b) < end {
+			continue
+		}
+		var sec []byte
+		k := rr.intn(6)
+		for j := 0; j < k; j++ {
+			switch rr.intn(10) {
+			case 0:
+				sec = append(sec, 0)
+			case 1:
+				sec = append(append(sec, 1), rr.bytes(6)...)
+			case 2:
+				sec = append(append(sec, 2), rr.bytes(18)...)
+			case 3: // IPv4-mapped and nearly mapped IPv6
+				ip := make([]byte, 18)
+				copy(ip[10:], []byte{0xff, 0xff})
+				copy(ip[12:], rr.bytes(6))
+				switch rr.intn(4) {
+				case 0:
+					ip[11] = 0xfe
+				case 1:
+					ip[rr.intn(10)] = 1
+				}
+				sec = append(append(sec, 2), ip...)
+			case 4:
+				sec = append(append(sec, 3), rr.bytes(12)...)
+			case 5:
+				sec = append(append(sec, 4), rr.bytes(37)...)
+			case 6, 7:
+				l := []int{0, 1, 5, 63, 255}[rr.intn(5)]
+				h := bytes.Repeat([]byte{'a'}, l)
+				if rr.intn(3) == 0 {
+					h = rr.bytes(l)
+				}
+				sec = append(append(append(sec, 5, byte(l)), h...), rr.bytes(2)...)
+			case 8:
+				sec = append(append(sec, byte(6+rr.intn(250))), rr.bytes(rr.intn(12))...)
+				j = k
+			default:
+				sec = append(append(sec, byte(1+rr.intn(5))), rr.bytes(rr.intn(5))...) // cut short
+				j = k
+			}
+		}
+		nb := append([]byte{}, b[:off]...)
+		if rr.intn(3) == 0 {
+			// alias: UTF-8 boundary sequences (valid and invalid), also cut off by the end
+			seqs := [][]byte{{0xc2, 0x80}, {0xc1, 0xbf}, {0xc0, 0x80}, {0xdf, 0xbf}, {0xe0, 0xa0, 0x80},
+				{0xe0, 0x9f, 0xbf}, {0xed, 0x9f, 0xbf}, {0xed, 0xa0, 0x80}, {0xef, 0xbf, 0xbf},
+				{0xf0, 0x90, 0x80, 0x80}, {0xf0, 0x8f, 0xbf, 0xbf}, {0xf4, 0x8f, 0xbf, 0xbf},
+				{0xf4, 0x90, 0x80, 0x80}, {0xf5, 0x80, 0x80, 0x80}, {0x80}, {0xbf}, {0xff}, {0x7f}, {0xe1, 0x80}}
+			sq := seqs[rr.intn(len(seqs))]
+			p := off - 32 + rr.intn(32)
+			for j := 0; j < len(sq) && p+j < off; j++ {
+				nb[p+j] = sq[j]
+			}
+		}
+		ln := len(sec)
+		if rr.intn(12) == 0 {
+			ln += 1 - 2*rr.intn(2) // section length off by one
+			if ln < 0 {
+				ln = 0
+			}
+		}
+		nb = append(nb, byte(ln>>8), byte(ln))
+		nb = append(nb, sec...)
+		nb = append(nb, b[end:]...)
+		out.emit(vCheckBytes(mt, nb, "addr-craft", nil))
+	}
 }
 
 func vHasExtra(m Message) bool {
@@ -624,10 +758,53 @@ func vExtStart(b []byte) int {
 	}
 	for k := 2; k <= len(b); k++ {
 		if _, err, pan, _ := vRead(b[:k]); err == nil && pan == "" {
-			return k
+			// ... and an (unknown, odd) record may follow here: ChannelReestablish
+			// decodes already without its optional tail, where no record can follow
+			probe := append(append([]byte{}, b[:k]...), vUnknownRec...)
+			if _, err, pan, _ := vRead(probe); err == nil && pan == "" {
+				return k
+			}
 		}
 	}
 	return -1
+}
+
+// vNonceMap builds the value of a LocalNoncesData record (type 22 of RevokeAndAck /
+// ChannelReestablish): n entries of 32-byte txid ++ 66-byte nonce, mostly valid nonces,
+// txids random / ascending / descending / with a duplicate, n around the 16-entry bound.
+func vNonceMap(r *vrng) []byte {
+	n := []int{0, 1, 2, 3, 5, 15, 16, 17}[r.intn(8)]
+	mode := r.intn(5)
+	var out []byte
+	for i := 0; i < n; i++ {
+		e := r.bytes(98)
+		switch mode {
+		case 1: // ascending first byte
+			e[0] = byte(i * 9)
+		case 2: // descending
+			e[0] = byte(250 - i*9)
+		case 3: // equal prefixes: order decided by a later byte
+			for j := 0; j < 31; j++ {
+				e[j] = 7
+			}
+		}
+		copy(e[32:], vPointG)
+		copy(e[65:], vPointG)
+		if r.intn(4) == 0 {
+			e[65] = 3
+		}
+		out = append(out, e...)
+	}
+	if n >= 2 && r.intn(6) == 0 {
+		copy(out[98*(n-1):98*(n-1)+32], out[:32]) // duplicate txid
+	}
+	if n >= 1 && r.intn(8) == 0 {
+		out[98*r.intn(n)+33+r.intn(32)] ^= 0x55 // spoil one nonce point (mostly off curve)
+	}
+	if r.intn(10) == 0 {
+		out = append(out, r.bytes(1+r.intn(3))...) // length not divisible by 98
+	}
+	return out
 }
 
 // compressed generator point of secp256k1 (a valid public key / nonce half)
@@ -640,21 +817,73 @@ var vPointG = []byte{0x02, 0x79, 0xbe, 0x66, 0x7e, 0xf9, 0xdc, 0xbb, 0xac, 0x55,
 // implausible lengths, valid and invalid curve points, scalars above the group
 // order, feature vectors with leading zero bytes; mostly canonical order, with
 // occasional duplicates / disorder / truncation.
+// vTlvLens parses a canonical TLV stream loosely: type -> value length of every record
+// (stops at the first malformed one).
+func vTlvLens(b []byte, into map[uint64][]int) {
+	rd := func() (uint64, bool) {
+		if len(b) == 0 {
+			return 0, false
+		}
+		d := b[0]
+		w := map[byte]int{0xfd: 2, 0xfe: 4, 0xff: 8}[d]
+		if w == 0 {
+			b = b[1:]
+			return uint64(d), true
+		}
+		if len(b) < 1+w {
+			return 0, false
+		}
+		var v uint64
+		for _, x := range b[1 : 1+w] {
+			v = v<<8 | uint64(x)
+		}
+		b = b[1+w:]
+		return v, true
+	}
+	for {
+		t, ok := rd()
+		if !ok {
+			return
+		}
+		l, ok := rd()
+		if !ok || l > uint64(len(b)) {
+			return
+		}
+		into[t] = append(into[t], int(l))
+		b = b[l:]
+	}
+}
+
+// vCraftHint: record lengths seen in the extension data of this message type's valid
+// encodings; vCraftExt prefers them (3 of 4 draws) so that accepted streams do not drown
+// in wrong-length rejections for messages with many fixed-size known records.
+var vCraftHint map[uint64][]int
+
 func vCraftExt(r *vrng) []byte {
-	types := []uint64{0, 1, 2, 3, 4, 5, 6, 7, 8, 22, 253, 55555, 65535, 65536, 65537, 1<<32 - 3}
-	plaus := map[uint64][]int{0: {0, 22, 33, 34, 66}, 1: {0, 1, 2, 3, 8}, 2: {4, 66, 98}, 4: {4, 66},
-		6: {32}, 8: {66}, 22: {0, 98, 196}, 55555: {8}, 65536: {4}}
+	types := []uint64{0, 1, 2, 3, 4, 5, 6, 7, 8, 20, 22, 253, 55555, 65535, 65536, 65537, 1<<32 - 3}
+	plaus := map[uint64][]int{0: {0, 22, 33, 34, 66}, 1: {0, 1, 2, 3, 8, 64}, 2: {4, 64, 66, 98},
+		3: {64}, 4: {4, 66}, 5: {32, 98}, 6: {32, 98}, 7: {32, 98}, 8: {66}, 20: {8},
+		22: {0, 66, 98, 196}, 55555: {8}, 65536: {4}}
 	anyLen := []int{0, 1, 2, 3, 4, 7, 8, 9, 31, 32, 33, 34, 65, 66, 67, 97, 98, 99}
 	p := 30 + r.intn(40)
+	// ClosingComplete/ClosingSig reject types 1..3 together with 5..7: mostly keep one group
+	g := r.intn(3)
+	dropLo, dropHi := g == 0, g == 1
 	var out []byte
 	var last []byte
 	for _, t := range types {
 		if r.intn(100) >= p {
 			continue
 		}
+		if dropLo && t >= 1 && t <= 3 || dropHi && t >= 5 && t <= 7 {
+			continue
+		}
 		n := anyLen[r.intn(len(anyLen))]
 		if pl, ok := plaus[t]; ok && r.intn(4) != 0 {
 			n = pl[r.intn(len(pl))]
+		}
+		if hl, ok := vCraftHint[t]; ok && r.intn(4) != 0 {
+			n = hl[r.intn(len(hl))]
 		}
 		v := r.bytes(n)
 		switch r.intn(6) {
@@ -681,6 +910,10 @@ func vCraftExt(r *vrng) []byte {
 				copy(v[32:], vPointG)
 				copy(v[65:], vPointG)
 			}
+		}
+		if t == 22 && r.intn(2) == 0 {
+			v = vNonceMap(r)
+			n = len(v)
 		}
 		var rec []byte
 		rec = append(rec, vBigSize(t)...)
@@ -826,10 +1059,23 @@ func TestVerifWire(t *testing.T) {
 				"append-unknown-tlv", b))
 		}
 		out.emit(vCheckBytes(mt, tb[:], "empty-body", nil))
+		if mt == MsgNodeAnnouncement {
+			vAddrRows(out, mt, r.fork(800000), bases)
+		}
 		// feature vectors at the bit-index boundaries (see vFeatRows)
 		vFeatRows(out, mt, r.fork(700000))
 		// crafted TLV extensions behind the fixed fields of a valid encoding
-		if k := vExtStart(bases[0]); k > 0 {
+		anyExt := false
+		for _, b := range bases {
+			anyExt = anyExt || vExtStart(b) > 0
+		}
+		if anyExt {
+			vCraftHint = map[uint64][]int{}
+			for _, b := range bases {
+				if k := vExtStart(b); k > 0 {
+					vTlvLens(b[k:], vCraftHint)
+				}
+			}
 			ncraft := vCases(24, 800)
 			for i := 0; i < ncraft; i++ {
 				rr := r.fork(uint64(500000 + i))
@@ -1032,8 +1278,33 @@ func vFailures(out *vWriter, master *vrng) {
 		}
 		return append([]byte{byte(len(u) >> 8), byte(len(u))}, u...)
 	}
+	// claimed length differing from the update that follows (io.LimitReader yields what is
+	// there), and an update without type prefix whose signature starts with 0x0102
+	lenUpdOff := func(withType bool, delta int) []byte {
+		b := lenUpd(withType)
+		if len(b) <= 2 {
+			return b
+		}
+		n := int(binary.BigEndian.Uint16(b)) + delta
+		if n < 0 {
+			n = 0
+		}
+		binary.BigEndian.PutUint16(b, uint16(n))
+		return b
+	}
+	sig0102 := func() []byte {
+		b := lenUpd(false)
+		if len(b) > 4 {
+			b[2], b[3] = 0x01, 0x02
+		}
+		return b
+	}
 	shapes := func() [][]byte {
 		return [][]byte{
+			lenUpdOff(true, 1), lenUpdOff(true, 40), lenUpdOff(false, -1), lenUpdOff(true, -3),
+			lenUpdOff(true, -130), sig0102(), append(r.bytes(8), sig0102()...),
+			append(r.bytes(8), lenUpdOff(true, 7)...), append(r.bytes(2), lenUpdOff(false, -9)...),
+			{0, 1, 7}, {0, 2, 1, 2}, {0, 2, 1, 3}, append(r.bytes(4), 0, 2, 1, 2),
 			nil, r.bytes(32), r.bytes(12), r.bytes(8), r.bytes(4), r.bytes(2),
 			append(r.bytes(12), r.bytes(1+r.intn(6))...),
 			lenUpd(true), lenUpd(false),
